@@ -1,0 +1,377 @@
+// This Source Code Form is subject to the terms of the Mozilla Public
+// License, v. 2.0. If a copy of the MPL was not distributed with this
+// file, You can obtain one at http://mozilla.org/MPL/2.0/.
+//
+// Copyright (c) DUSK NETWORK. All rights reserved.
+
+//! Verification seams of the composer (feature `verif`).
+//!
+//! Everything here is additive: it exposes the abstract state of a
+//! [`Composer`] (rows, wiring, public inputs, witness values), lets a
+//! conformance harness override single witness values and append raw rows
+//! with internal selectors, and gives runtime-width access to the
+//! const-generic and `pub(super)` gadget entry points. None of it is compiled
+//! unless the `verif` feature is enabled.
+
+use alloc::vec::Vec;
+
+use dusk_bls12_381::BlsScalar;
+use dusk_jubjub::{JubJubAffine, JubJubExtended};
+
+use super::constraint_system::Selector;
+use super::{Composer, Constraint, Witness, WitnessPoint};
+use crate::error::Error;
+
+/// One gate row as seen by the proof system.
+#[derive(Debug, Clone, PartialEq, Eq)]
+pub struct VerifRow {
+    /// Selector values in the order `q_m q_l q_r q_o q_f q_c q_arith q_range
+    /// q_logic q_fixed_group_add q_variable_group_add`.
+    pub selectors: [BlsScalar; 11],
+    /// Witness indexes wired to `a b c d`.
+    pub wires: [usize; 4],
+}
+
+/// Projection of a [`Composer`] onto the state the specification talks
+/// about.
+#[derive(Debug, Clone, PartialEq, Eq)]
+pub struct VerifSnapshot {
+    /// Gate rows in insertion order.
+    pub rows: Vec<VerifRow>,
+    /// Public-input rows `(row index, value)`, sorted by row index.
+    pub public_inputs: Vec<(usize, BlsScalar)>,
+    /// Witness values by witness index.
+    pub witnesses: Vec<BlsScalar>,
+}
+
+macro_rules! dispatch_const {
+    ($n:expr, $slf:ident, $f:ident, $args:tt, [$($k:literal)*]) => {
+        match $n {
+            $($k => Some($slf.$f::<$k> $args),)*
+            _ => None,
+        }
+    };
+}
+
+macro_rules! dispatch_0_256 {
+    ($n:expr, $slf:ident, $f:ident, $args:tt) => {
+        dispatch_const!($n, $slf, $f, $args, [
+            0 1 2 3 4 5 6 7 8 9 10 11 12 13 14 15 16 17 18 19 20 21 22 23 24
+            25 26 27 28 29 30 31 32 33 34 35 36 37 38 39 40 41 42 43 44 45 46
+            47 48 49 50 51 52 53 54 55 56 57 58 59 60 61 62 63 64 65 66 67 68
+            69 70 71 72 73 74 75 76 77 78 79 80 81 82 83 84 85 86 87 88 89 90
+            91 92 93 94 95 96 97 98 99 100 101 102 103 104 105 106 107 108 109
+            110 111 112 113 114 115 116 117 118 119 120 121 122 123 124 125
+            126 127 128 129 130 131 132 133 134 135 136 137 138 139 140 141
+            142 143 144 145 146 147 148 149 150 151 152 153 154 155 156 157
+            158 159 160 161 162 163 164 165 166 167 168 169 170 171 172 173
+            174 175 176 177 178 179 180 181 182 183 184 185 186 187 188 189
+            190 191 192 193 194 195 196 197 198 199 200 201 202 203 204 205
+            206 207 208 209 210 211 212 213 214 215 216 217 218 219 220 221
+            222 223 224 225 226 227 228 229 230 231 232 233 234 235 236 237
+            238 239 240 241 242 243 244 245 246 247 248 249 250 251 252 253
+            254 255 256
+        ])
+    };
+}
+
+macro_rules! dispatch_0_254 {
+    ($n:expr, $slf:ident, $f:ident, $args:tt) => {
+        dispatch_const!($n, $slf, $f, $args, [
+            0 1 2 3 4 5 6 7 8 9 10 11 12 13 14 15 16 17 18 19 20 21 22 23 24
+            25 26 27 28 29 30 31 32 33 34 35 36 37 38 39 40 41 42 43 44 45 46
+            47 48 49 50 51 52 53 54 55 56 57 58 59 60 61 62 63 64 65 66 67 68
+            69 70 71 72 73 74 75 76 77 78 79 80 81 82 83 84 85 86 87 88 89 90
+            91 92 93 94 95 96 97 98 99 100 101 102 103 104 105 106 107 108 109
+            110 111 112 113 114 115 116 117 118 119 120 121 122 123 124 125
+            126 127 128 129 130 131 132 133 134 135 136 137 138 139 140 141
+            142 143 144 145 146 147 148 149 150 151 152 153 154 155 156 157
+            158 159 160 161 162 163 164 165 166 167 168 169 170 171 172 173
+            174 175 176 177 178 179 180 181 182 183 184 185 186 187 188 189
+            190 191 192 193 194 195 196 197 198 199 200 201 202 203 204 205
+            206 207 208 209 210 211 212 213 214 215 216 217 218 219 220 221
+            222 223 224 225 226 227 228 229 230 231 232 233 234 235 236 237
+            238 239 240 241 242 243 244 245 246 247 248 249 250 251 252 253
+            254
+        ])
+    };
+}
+
+macro_rules! dispatch_1_256 {
+    ($n:expr, $slf:ident, $f:ident, $args:tt) => {
+        dispatch_const!($n, $slf, $f, $args, [
+            1 2 3 4 5 6 7 8 9 10 11 12 13 14 15 16 17 18 19 20 21 22 23 24
+            25 26 27 28 29 30 31 32 33 34 35 36 37 38 39 40 41 42 43 44 45 46
+            47 48 49 50 51 52 53 54 55 56 57 58 59 60 61 62 63 64 65 66 67 68
+            69 70 71 72 73 74 75 76 77 78 79 80 81 82 83 84 85 86 87 88 89 90
+            91 92 93 94 95 96 97 98 99 100 101 102 103 104 105 106 107 108 109
+            110 111 112 113 114 115 116 117 118 119 120 121 122 123 124 125
+            126 127 128 129 130 131 132 133 134 135 136 137 138 139 140 141
+            142 143 144 145 146 147 148 149 150 151 152 153 154 155 156 157
+            158 159 160 161 162 163 164 165 166 167 168 169 170 171 172 173
+            174 175 176 177 178 179 180 181 182 183 184 185 186 187 188 189
+            190 191 192 193 194 195 196 197 198 199 200 201 202 203 204 205
+            206 207 208 209 210 211 212 213 214 215 216 217 218 219 220 221
+            222 223 224 225 226 227 228 229 230 231 232 233 234 235 236 237
+            238 239 240 241 242 243 244 245 246 247 248 249 250 251 252 253
+            254 255 256
+        ])
+    };
+}
+
+macro_rules! dispatch_0_130 {
+    ($n:expr, $slf:ident, $f:ident, $args:tt) => {
+        dispatch_const!($n, $slf, $f, $args, [
+            0 1 2 3 4 5 6 7 8 9 10 11 12 13 14 15 16 17 18 19 20 21 22 23 24
+            25 26 27 28 29 30 31 32 33 34 35 36 37 38 39 40 41 42 43 44 45 46
+            47 48 49 50 51 52 53 54 55 56 57 58 59 60 61 62 63 64 65 66 67 68
+            69 70 71 72 73 74 75 76 77 78 79 80 81 82 83 84 85 86 87 88 89 90
+            91 92 93 94 95 96 97 98 99 100 101 102 103 104 105 106 107 108 109
+            110 111 112 113 114 115 116 117 118 119 120 121 122 123 124 125
+            126 127 128 129 130
+        ])
+    };
+}
+
+macro_rules! dispatch_0_127 {
+    ($n:expr, $slf:ident, $f:ident, $args:tt) => {
+        dispatch_const!($n, $slf, $f, $args, [
+            0 1 2 3 4 5 6 7 8 9 10 11 12 13 14 15 16 17 18 19 20 21 22 23 24
+            25 26 27 28 29 30 31 32 33 34 35 36 37 38 39 40 41 42 43 44 45 46
+            47 48 49 50 51 52 53 54 55 56 57 58 59 60 61 62 63 64 65 66 67 68
+            69 70 71 72 73 74 75 76 77 78 79 80 81 82 83 84 85 86 87 88 89 90
+            91 92 93 94 95 96 97 98 99 100 101 102 103 104 105 106 107 108 109
+            110 111 112 113 114 115 116 117 118 119 120 121 122 123 124 125
+            126 127
+        ])
+    };
+}
+
+impl Composer {
+    /// Projects the composer onto rows, public inputs and witness values.
+    pub fn verif_snapshot(&self) -> VerifSnapshot {
+        let rows = self
+            .constraints
+            .iter()
+            .map(|g| VerifRow {
+                selectors: [
+                    g.q_m,
+                    g.q_l,
+                    g.q_r,
+                    g.q_o,
+                    g.q_f,
+                    g.q_c,
+                    g.q_arith,
+                    g.q_range,
+                    g.q_logic,
+                    g.q_fixed_group_add,
+                    g.q_variable_group_add,
+                ],
+                wires: [g.a.index(), g.b.index(), g.c.index(), g.d.index()],
+            })
+            .collect();
+
+        let public_inputs = self
+            .public_input_indexes()
+            .into_iter()
+            .filter_map(|i| self.public_inputs.get(&i).map(|v| (i, *v)))
+            .collect();
+
+        VerifSnapshot {
+            rows,
+            public_inputs,
+            witnesses: self.witnesses.clone(),
+        }
+    }
+
+    /// Number of allocated witnesses.
+    pub fn verif_witness_count(&self) -> usize {
+        self.witnesses.len()
+    }
+
+    /// Handle to an already allocated witness; `None` when out of range.
+    pub fn verif_witness(&self, index: usize) -> Option<Witness> {
+        (index < self.witnesses.len()).then(|| Witness::new(index))
+    }
+
+    /// Overrides the value of an allocated witness, leaving the layout
+    /// untouched. Returns `false` when the index is out of range.
+    pub fn verif_set_witness(&mut self, index: usize, value: BlsScalar) -> bool {
+        match self.witnesses.get_mut(index) {
+            Some(w) => {
+                *w = value;
+                true
+            }
+            None => false,
+        }
+    }
+
+    /// Appends a raw row. `selectors` is in the order of
+    /// [`VerifRow::selectors`]; `public` attaches a public input.
+    pub fn verif_raw_gate(
+        &mut self,
+        selectors: [BlsScalar; 11],
+        wires: [Witness; 4],
+        public: Option<BlsScalar>,
+    ) {
+        const ORDER: [Selector; 11] = [
+            Selector::Multiplication,
+            Selector::Left,
+            Selector::Right,
+            Selector::Output,
+            Selector::Fourth,
+            Selector::Constant,
+            Selector::Arithmetic,
+            Selector::Range,
+            Selector::Logic,
+            Selector::GroupAddFixedBase,
+            Selector::GroupAddVariableBase,
+        ];
+
+        let mut constraint = Constraint::new()
+            .a(wires[0])
+            .b(wires[1])
+            .c(wires[2])
+            .d(wires[3]);
+        for (selector, value) in ORDER.iter().zip(selectors) {
+            constraint = constraint.set(*selector, value);
+        }
+        if let Some(public) = public {
+            constraint = constraint.public(public);
+        }
+
+        self.append_custom_gate(constraint);
+    }
+
+    /// Runtime-width seam over the `pub(super)` range check.
+    pub fn verif_range_check(&mut self, witness: Witness, bits: usize) {
+        self.range_check(witness, bits)
+    }
+
+    /// The public `component_range_bits::<BITS>` for a runtime `bits`
+    /// (`0..=256`).
+    pub fn verif_component_range_bits(
+        &mut self,
+        witness: Witness,
+        bits: usize,
+    ) -> Option<()> {
+        dispatch_0_256!(bits, self, component_range_bits, (witness))
+    }
+
+    /// The deprecated public `component_range::<BIT_PAIRS>` for a runtime
+    /// `pairs` (`0..=130`).
+    #[allow(deprecated)]
+    pub fn verif_component_range(
+        &mut self,
+        witness: Witness,
+        pairs: usize,
+    ) -> Option<()> {
+        dispatch_0_130!(pairs, self, component_range, (witness))
+    }
+
+    /// The public `append_logic_component::<BIT_PAIRS>` for a runtime `pairs`
+    /// (`0..=127`).
+    pub fn verif_logic(
+        &mut self,
+        a: Witness,
+        b: Witness,
+        pairs: usize,
+        is_xor: bool,
+    ) -> Option<Witness> {
+        dispatch_0_127!(pairs, self, append_logic_component, (a, b, is_xor))
+    }
+
+    /// The public `component_truncate::<N>` for a runtime `n` (`0..=254`).
+    pub fn verif_truncate(
+        &mut self,
+        witness: Witness,
+        n: usize,
+    ) -> Option<Witness> {
+        dispatch_0_254!(n, self, component_truncate, (witness))
+    }
+
+    /// The public `component_decomposition::<N>` for a runtime `n`
+    /// (`1..=256`).
+    pub fn verif_decomposition(
+        &mut self,
+        witness: Witness,
+        n: usize,
+    ) -> Option<Vec<Witness>> {
+        dispatch_1_256!(n, self, verif_decomposition_n, (witness))
+    }
+
+    fn verif_decomposition_n<const N: usize>(
+        &mut self,
+        witness: Witness,
+    ) -> Vec<Witness> {
+        self.component_decomposition::<N>(witness).to_vec()
+    }
+
+    /// Seam over `bind_truncation_split`.
+    pub fn verif_bind_truncation_split(
+        &mut self,
+        input: Witness,
+        low: Witness,
+        num_bits: usize,
+    ) {
+        self.bind_truncation_split(input, low, num_bits)
+    }
+
+    /// Seam over `assert_canonical_truncation`.
+    pub fn verif_assert_canonical_truncation(
+        &mut self,
+        high: Witness,
+        low: Witness,
+        num_bits: usize,
+    ) {
+        self.assert_canonical_truncation(high, low, num_bits)
+    }
+
+    /// Seam over `assert_canonical_jubjub_scalar`.
+    pub fn verif_assert_canonical_jubjub_scalar(&mut self, scalar: Witness) {
+        self.assert_canonical_jubjub_scalar(scalar)
+    }
+
+    /// Allocates two witnesses as an (unchecked) point.
+    pub fn verif_point(&mut self, u: BlsScalar, v: BlsScalar) -> WitnessPoint {
+        let x = self.append_witness(u);
+        let y = self.append_witness(v);
+        WitnessPoint::new(x, y)
+    }
+
+    /// Builds a point handle from two allocated witnesses.
+    pub fn verif_point_of(x: Witness, y: Witness) -> WitnessPoint {
+        WitnessPoint::new(x, y)
+    }
+
+    /// Seam over the untyped `add_point_gates`.
+    pub fn verif_add_point_gates(
+        &mut self,
+        a: WitnessPoint,
+        b: WitnessPoint,
+    ) -> WitnessPoint {
+        self.add_point_gates(a, b)
+    }
+
+    /// Seam over `assert_torsion_free_gates(point, q)` with a
+    /// prover-supplied auxiliary point given by raw coordinates.
+    pub fn verif_assert_torsion_free_gates(
+        &mut self,
+        point: WitnessPoint,
+        q_u: BlsScalar,
+        q_v: BlsScalar,
+    ) {
+        let q = JubJubAffine::from_raw_unchecked(q_u, q_v);
+        self.assert_torsion_free_gates(point, q)
+    }
+
+    /// Seam over `append_fixed_base_signed_digits`.
+    pub fn verif_fixed_base_signed_digits(
+        &mut self,
+        scalar: Witness,
+        generator: JubJubExtended,
+        digits: &[i8; 256],
+    ) -> Result<WitnessPoint, Error> {
+        self.append_fixed_base_signed_digits(scalar, generator, digits)
+    }
+}
